@@ -12,8 +12,9 @@
   * struct node (`nodes.Struct`): the user's `Process()` as an abstract function `fn` of the wiring
     (so it may look at which ports are nil / how long the arrays are) and of the list of dependency
     values in `Dependencies()` order;  scalar ports (`nil` or a node), array ports (lists of nodes);
-    `reads` (which wired inputs `Process()` pulls — processors that skip inputs are expressible;
-    `ReadsAll` = all of them), `value` (cache), `version`, `depVersions` (`remembered`, `none` = Go's nil slice = never
+    `next` (the pull strategy of `Process()`: which wired input it pulls next, in any order,
+    depending on wiring and values — processors that skip inputs are expressible; `ReadsAll` =
+    all of them in order), `value` (cache), `version`, `depVersions` (`remembered`, `none` = Go's nil slice = never
     processed), `inputChangedSinceLastProcess` (`flag`).
 
   `Dependencies()` (since fix 2752e26): scalar ports in sorted field-name order (nil skipped),
@@ -25,16 +26,22 @@ namespace PolyVerif.Nodes
 /-- execution log: `(node, version after the execution)` per `process()`, oldest first -/
 abbrev Log := List (Nat × Nat)
 
+/-- the strategy of a processor that reads all its wired inputs, in `Dependencies()` order -/
+def nextAll {V : Type} (es : List (Option V)) : Option Nat := es.findIdx? Option.isNone
+
 structure SNode (V : Type) where
   /-- the user's `Process()`: a function of the wiring and of one entry per dependency in
       `Dependencies()` order — `some v` the value it pulled, `none` for an input it did not pull
       (so it cannot depend on a value it never read) -/
   fn : List (Option Nat) → List (List Nat) → List (Option V) → V
-  /-- which wired inputs `Process()` pulls: given the entries collected so far (one per dependency
-      already considered), is the next dependency pulled with `.Value()`?
-      `fun _ => true` = the processor reads all its wired inputs (guard `ReadsAll`, needed only
-      for the "recompute only on change" theorems). -/
-  reads : List (Option V) → Bool := fun _ => true
+  /-- the pull STRATEGY of `Process()`: given the wiring and the entries so far (one per dependency,
+      positional in `Dependencies()` order; `none` = not pulled), the index of the next input it
+      pulls with `.Value()`, or `none` = it is done.  Any order (a later dependency first), may
+      depend on the wiring (a nil port makes it return early) and on the values read so far; it
+      makes at most one pull per dependency slot (`len(deps)` pulls in all).
+      Default `nextAll` = all wired inputs, in order (guard `ReadsAll`, needed only for the
+      "recompute only on change" theorems). -/
+  next : List (Option Nat) → List (List Nat) → List (Option V) → Option Nat := fun _ _ es => nextAll es
   scalars : List (Option Nat)
   arrays : List (List Nat)
   cache : V
@@ -87,13 +94,18 @@ def outdated : Nat → Graph V → Nat → Bool
       | none => true
       | some rv => s.flag || mismatch g (fun d => outdated f g d) s.deps rv
 
-/-- the inputs of a from-scratch `Process()`: it pulls exactly the inputs `reads` selects, given
-    the entries collected so far; `ev d` = the from-scratch value of dependency `d` -/
-def specPull (ev : Nat → V) (reads : List (Option V) → Bool) : List Nat → List (Option V) → List (Option V)
-  | [], acc => acc
-  | d :: ds, acc =>
-    if reads acc then specPull ev reads ds (acc ++ [some (ev d)])
-    else specPull ev reads ds (acc ++ [none])
+/-- the inputs of a from-scratch `Process()`: it pulls exactly the inputs its strategy selects, in
+    its order; `ev d` = the from-scratch value of dependency `d`; fuel = number of pulls left -/
+def specPullS (ev : Nat → V) (next : List (Option V) → Option Nat) (ds : List Nat) :
+    Nat → List (Option V) → List (Option V)
+  | 0, es => es
+  | n+1, es =>
+    match next es with
+    | none => es
+    | some k =>
+      match ds[k]? with
+      | none => es
+      | some d => specPullS ev next ds n (es.set k (some (ev d)))
 
 /-- evaluate the current graph from scratch (the specification): parameters give their values, a
     struct node runs its `Process()` on from-scratch inputs — a processor that skips inputs skips
@@ -103,30 +115,26 @@ def evalSpec : Nat → Graph V → Nat → V
   | f+1, g, i =>
     match g i with
     | .param x _ => x
-    | .struct s => s.fn s.scalars s.arrays (specPull (fun d => evalSpec f g d) s.reads s.deps [])
+    | .struct s =>
+      s.fn s.scalars s.arrays
+        (specPullS (fun d => evalSpec f g d) (s.next s.scalars s.arrays) s.deps s.deps.length
+          (List.replicate s.deps.length none))
 
-/-- the user's `Process()` pulling ALL its inputs one after the other with `.Value()`
-    (`pullM` with `reads = fun _ => true`, lemma `pullM_all`):
-    evaluate the dependency, read its value at that moment, go on in the new state -/
-def pull (ev : Graph V → Nat → Graph V × Log) : Graph V → List Nat → Graph V × List V × Log
-  | g, [] => (g, [], [])
-  | g, d :: ds =>
-    let r := ev g d
-    let v := val r.1 d
-    let r2 := pull ev r.1 ds
-    (r2.1, v :: r2.2.1, r.2 ++ r2.2.2)
-
-/-- `Process()` of a processor that may skip inputs: dependency `d` is evaluated (and its value
-    read at that moment) only if `reads acc` says so; otherwise nothing is evaluated -/
-def pullM (ev : Graph V → Nat → Graph V × Log) (reads : List (Option V) → Bool) :
-    Graph V → List Nat → List (Option V) → Graph V × List (Option V) × Log
-  | g, [], acc => (g, acc, [])
-  | g, d :: ds, acc =>
-    if reads acc then
-      let r := ev g d
-      let r2 := pullM ev reads r.1 ds (acc ++ [some (val r.1 d)])
-      (r2.1, r2.2.1, r.2 ++ r2.2.2)
-    else pullM ev reads g ds (acc ++ [none])
+/-- the user's `Process()` pulling its inputs with `.Value()` as its strategy says: evaluate the
+    chosen dependency, read its value at that moment, go on in the new state -/
+def pullS (ev : Graph V → Nat → Graph V × Log) (next : List (Option V) → Option Nat) (ds : List Nat) :
+    Nat → Graph V → List (Option V) → Graph V × List (Option V) × Log
+  | 0, g, es => (g, es, [])
+  | n+1, g, es =>
+    match next es with
+    | none => (g, es, [])
+    | some k =>
+      match ds[k]? with
+      | none => (g, es, [])
+      | some d =>
+        let r := ev g d
+        let r2 := pullS ev next ds n r.1 (es.set k (some (val r.1 d)))
+        (r2.1, r2.2.1, r.2 ++ r2.2.2)
 
 /-- `process()`: cache := Process(), version++, remember the dependency versions, clear the flag.
     `Process()` may also return an error: `sn.value, sn.err = sn.Data.Process()` stores the value
@@ -145,7 +153,8 @@ def eval : Nat → Graph V → Nat → Graph V × Log
     | .param _ _ => (g, [])
     | .struct s =>
       if outdated (f+1) g i then
-        let r := pullM (fun g d => eval f g d) s.reads g s.deps []
+        let r := pullS (fun g d => eval f g d) (s.next s.scalars s.arrays) s.deps s.deps.length g
+          (List.replicate s.deps.length none)
         (r.1.set i (.struct (s.executed r.1 r.2.1)), r.2.2 ++ [(i, s.version + 1)])
       else (g, [])
 
@@ -161,7 +170,7 @@ def Ranked (rank : Nat → Nat) (F : Nat) (g : Graph V) : Prop :=
 def Acyclic (F : Nat) (g : Graph V) : Prop := ∃ rank, Ranked rank F g
 
 /-- the guard on processors: every struct node's `Process()` pulls ALL its wired inputs -/
-def ReadsAll (g : Graph V) : Prop := ∀ i s, g i = .struct s → s.reads = fun _ => true
+def ReadsAll (g : Graph V) : Prop := ∀ i s, g i = .struct s → s.next = fun _ _ es => nextAll es
 
 def Outdated (F : Nat) (g : Graph V) (i : Nat) : Bool := outdated F g i
 def Spec (F : Nat) (g : Graph V) (i : Nat) : V := evalSpec F g i
